@@ -175,6 +175,16 @@ class MaybeScoreLearner:
         return 1 / len(actions)
     def predict(self, context, actions): return actions[self.n % len(actions)], 1.0
     def learn(self, context, action, reward, probability, **kw): self.n += 1
+class SkewScoreLearner:
+    """scores its favourite (the first offered action) high and every other action low - far from any logging policy"""
+    def __init__(self): self.n = 0
+    @property
+    def params(self): return {"family": "SkewScore"}
+    def score(self, context, actions, action):
+        if actions is None: raise ValueError("probe")
+        return 0.6 if action == actions[0] else 0.4 / max(len(actions) - 1, 1)
+    def predict(self, context, actions): return actions[0], 0.6
+    def learn(self, context, action, reward, probability, **kw): self.n += 1
 class FinishLearner:
     """a learner with a finish() hook (closing a model): a finished learner behaves differently, so finishing anything but the evaluated copy shows in later triples"""
     def __init__(self): self.n, self.closed = 0, False
@@ -276,11 +286,11 @@ def build(spec):
     for l in spec["lrns"]:
         kind = l[0]
         lrns.append(RandomLearner() if kind == "random" else BanditEpsilonLearner(0.2) if kind == "eps" else BanditUCBLearner() if kind == "ucb" else FixedLearner([1, 0, 0]) if kind == "fixed"
-                    else CountingLearner(l[1]) if kind == "count" else KwargsLearner() if kind == "kwargs" else InfoLearner() if kind == "info" else MaybeScoreLearner(l[1]) if kind == "mscore" else FinishLearner() if kind == "finish" else FailingLearner(l[1], l[2]))
+                    else CountingLearner(l[1]) if kind == "count" else KwargsLearner() if kind == "kwargs" else InfoLearner() if kind == "info" else MaybeScoreLearner(l[1]) if kind == "mscore" else FinishLearner() if kind == "finish" else SkewScoreLearner() if kind == "skew" else FailingLearner(l[1], l[2]))
     vals = []
     for v in spec["vals"]:
         kind = v[0]
-        vals.append(SequentialCB() if kind == "seq" else SequentialCB(record=["reward", "action", "probability", "context"], seed=v[1]) if kind == "seq2" else RejectionCB() if kind == "rej" else SequentialCB(record=["reward"], learn="off", eval="ips") if kind == "seqips" else slow_params_cb(v[1]) if kind == "slowparams" else custom_eval)
+        vals.append(SequentialCB() if kind == "seq" else SequentialCB(record=["reward", "action", "probability", "context"], seed=v[1]) if kind == "seq2" else (RejectionCB(seed=v[1]) if len(v) > 1 else RejectionCB()) if kind == "rej" else SequentialCB(record=["reward"], learn="off", eval="ips") if kind == "seqips" else slow_params_cb(v[1]) if kind == "slowparams" else custom_eval)
     return [(envs[e], lrns[l], vals[v]) for e, l, v in spec["triples"]]
 
 DROP = {"predict_time", "learn_time"}
